@@ -26,6 +26,12 @@ NATIVE_OPAQUE = r'''
 #define __CPROVER_uninterpreted_ordi(e, m, d) ORD_I(e, m, d)
 #define __CPROVER_uninterpreted_leapi(e) (LEAP_I(e) ? 1 : 0)
 #define __CPROVER_uninterpreted_fmi(e) FM400_I(e)
+#define __CPROVER_uninterpreted_mul24(x) ((Z)(x) * 24)
+#define __CPROVER_uninterpreted_mul60(x) ((Z)(x) * 60)
+#define __CPROVER_uninterpreted_fd24(x) FD((Z)(x), 24)
+#define __CPROVER_uninterpreted_fm24(x) FM((Z)(x), 24)
+#define __CPROVER_uninterpreted_fd60(x) FD((Z)(x), 60)
+#define __CPROVER_uninterpreted_fm60(x) FM((Z)(x), 60)
 '''
 
 
